@@ -122,6 +122,86 @@ theorem C15_strength_clamped_zero (sd : SpatialData ℝ) (t : ℝ) (input : Fram
   rw [this, hatt]
   exact (C15_strength_zero_passthrough _ _ _ _ _ _).1
 
+/-- **mirroring through the listener's median plane swaps the two ear gains** (and leaves the
+    distance, hence the attenuation, unchanged).  The median plane passes through the listener and
+    is perpendicular to its right-pointing axis `n = lo · X`; the mirrored emitter is
+    `p − 2((p − lp)·n) n`.  For every position and every unit orientation. -/
+theorem C15_mirror_swaps (s : ℝ) (p lp : Vec3 ℝ) (lo : Quat ℝ) (hq : Quat.normSq lo = 1) :
+    earGains s (Vec3.sub p (Vec3.scale (lo.mulVec3 Vec3.posX) (2 * Vec3.dot (Vec3.sub p lp) (lo.mulVec3 Vec3.posX)))) lp lo
+        = ((earGains s p lp lo).2, (earGains s p lp lo).1)
+    ∧ Vec3.distance lp (Vec3.sub p (Vec3.scale (lo.mulVec3 Vec3.posX) (2 * Vec3.dot (Vec3.sub p lp) (lo.mulVec3 Vec3.posX))))
+        = Vec3.distance lp p := by
+  have hn := axisX_unit lo hq
+  have hfn := axisZ_axisX lo hq
+  change Vec3.dot (axisX lo) (axisX lo) = 1 at hn
+  obtain ⟨m1, m2, m3, m4, m5⟩ := mirror_core (axisX lo) (axisZ lo) (Vec3.sub p lp) cA cB (1 / 10) hn hfn
+  change earGains s (Vec3.sub p (Vec3.scale (axisX lo) (2 * Vec3.dot (Vec3.sub p lp) (axisX lo)))) lp lo = _
+    ∧ Vec3.distance lp (Vec3.sub p (Vec3.scale (axisX lo) (2 * Vec3.dot (Vec3.sub p lp) (axisX lo)))) = _
+  set n := axisX lo with hnd
+  set p' := Vec3.sub p (Vec3.scale n (2 * Vec3.dot (Vec3.sub p lp) n)) with hp'
+  -- vectors from the ears to the (mirrored) emitter
+  have eL : ∀ x : Vec3 ℝ, Vec3.sub x (earPositions lp lo).1 = Vec3.add (Vec3.sub x lp) (Vec3.scale n (1 / 10)) := by
+    intro x; rw [earPositions_real]; ext <;> simp [hnd] <;> ring
+  have eR : ∀ x : Vec3 ℝ, Vec3.sub x (earPositions lp lo).2 = Vec3.sub (Vec3.sub x lp) (Vec3.scale n (1 / 10)) := by
+    intro x; rw [earPositions_real]; ext <;> simp [hnd] <;> ring
+  have hw' : Vec3.sub p' lp = Vec3.sub (Vec3.sub p lp) (Vec3.scale n (2 * Vec3.dot (Vec3.sub p lp) n)) := by
+    rw [hp']; ext <;> simp <;> ring
+  constructor
+  · unfold earGains earVolumes
+    have h1 : earVolume (earDirections lo).1 (earPositions lp lo).1 p'
+        = earVolume (earDirections lo).2 (earPositions lp lo).2 p := by
+      apply earVolume_congr
+      · rw [eL, eR, hw', earDirections_real]; exact m3
+      · rw [eL, eR, hw']; exact m4
+    have h2 : earVolume (earDirections lo).2 (earPositions lp lo).2 p'
+        = earVolume (earDirections lo).1 (earPositions lp lo).1 p := by
+      apply earVolume_congr
+      · rw [eL, eR, hw', earDirections_real]; exact m1
+      · rw [eL, eR, hw']; exact m2
+    simp only [h1, h2]
+  · unfold Vec3.distance
+    rw [Vec3.length_real, Vec3.length_real]
+    congr 1
+    have a1 : Vec3.dot (Vec3.sub lp p') (Vec3.sub lp p') = Vec3.dot (Vec3.sub p' lp) (Vec3.sub p' lp) := by
+      simp only [Vec3.dot_real, Vec3.sub_x, Vec3.sub_y, Vec3.sub_z]; ring
+    have a2 : Vec3.dot (Vec3.sub lp p) (Vec3.sub lp p) = Vec3.dot (Vec3.sub p lp) (Vec3.sub p lp) := by
+      simp only [Vec3.dot_real, Vec3.sub_x, Vec3.sub_y, Vec3.sub_z]; ring
+    rw [a1, a2, hw']; exact m5
+
+/-- **a rigid motion applied to listener and emitter together changes nothing**: rotate both
+    positions by a unit quaternion `r`, translate both by `t`, compose the listener's orientation
+    with `r` (Hamilton product) — the distance, both ear gains and therefore the whole output frame
+    are unchanged.  For every position, every (not necessarily unit) orientation, every parameter. -/
+theorem C15_rigid_motion_invariant (att : Option (Easing ℝ)) (minD maxD s : ℝ) (p lp t : Vec3 ℝ)
+    (lo r : Quat ℝ) (input : Frame ℝ) (hr : Quat.normSq r = 1) :
+    Vec3.distance (Vec3.add (r.mulVec3 lp) t) (Vec3.add (r.mulVec3 p) t) = Vec3.distance lp p
+    ∧ earGains s (Vec3.add (r.mulVec3 p) t) (Vec3.add (r.mulVec3 lp) t) (Quat.mulQ r lo) = earGains s p lp lo
+    ∧ spatializeAt att minD maxD (Vec3.add (r.mulVec3 p) t) s input (Vec3.add (r.mulVec3 lp) t) (Quat.mulQ r lo)
+        = spatializeAt att minD maxD p s input lp lo := by
+  have hdist : Vec3.distance (Vec3.add (r.mulVec3 lp) t) (Vec3.add (r.mulVec3 p) t) = Vec3.distance lp p := by
+    unfold Vec3.distance
+    have : Vec3.sub (Vec3.add (r.mulVec3 lp) t) (Vec3.add (r.mulVec3 p) t) = r.mulVec3 (Vec3.sub lp p) := by
+      rw [Quat.mulVec3_sub]; ext <;> simp
+    rw [this, Vec3.length_real, Vec3.length_real, Quat.mulVec3_dot_unit r hr]
+  have hg : earGains s (Vec3.add (r.mulVec3 p) t) (Vec3.add (r.mulVec3 lp) t) (Quat.mulQ r lo) = earGains s p lp lo := by
+    unfold earGains earVolumes earDirections earPositions
+    have hv : ∀ (d e0 : Vec3 ℝ),
+        earVolume ((Quat.mulQ r lo).mulVec3 d)
+            (Vec3.add (Vec3.add (r.mulVec3 lp) t) ((Quat.mulQ r lo).mulVec3 e0)) (Vec3.add (r.mulVec3 p) t)
+          = earVolume (lo.mulVec3 d) (Vec3.add lp (lo.mulVec3 e0)) p := by
+      intro d e0
+      have hsub : Vec3.sub (Vec3.add (r.mulVec3 p) t) (Vec3.add (Vec3.add (r.mulVec3 lp) t) ((Quat.mulQ r lo).mulVec3 e0))
+          = r.mulVec3 (Vec3.sub p (Vec3.add lp (lo.mulVec3 e0))) := by
+        rw [Quat.mulQ_mulVec3, Quat.mulVec3_sub, Quat.mulVec3_add]; ext <;> simp <;> ring
+      apply earVolume_congr
+      · rw [hsub, Quat.mulQ_mulVec3, Quat.mulVec3_dot_unit r hr]
+      · rw [hsub, Quat.mulVec3_dot_unit r hr]
+    simp only [hv]
+  refine ⟨hdist, hg, ?_⟩
+  unfold spatializeAt
+  have e1 : ∀ a b : Vec3 ℝ, Vec3.length (Vec3.sub a b) = Vec3.distance a b := fun _ _ => rfl
+  simp only [e1, hdist, hg]
+
 /-! ### no listener ⇒ silence -/
 
 /-- **if the listener does not exist the track is silent**: every frame of the chunk is zeroed,
